@@ -163,7 +163,7 @@ static void timer_trigger(struct ev_loop* loop, ev_timer* watcher,
   ++num_events_triggered;
 }
 
-int fiber_sleep(uint32_t seconds, uint32_t useconds) {
+int fiber_sleep(uint64_t seconds, uint32_t useconds) {
   if (!fiber_loop) {
     fiber_do_real_sleep(seconds, useconds);
     return FIBER_SUCCESS;
